@@ -365,6 +365,135 @@ def r7(ctx, prog, eng, ctxs):
             ctx.ob('C01.R7', '%s|invoke-role' % locks.site_name(prog, f), 'any' not in rs and bool(rs), 'invoked in role(s) %s' % sorted(rs), where=f.loc(inv['i']))
 
 
+def r8(ctx, prog, eng, ctxs, anyf):
+    ctx.rule('C01.R8', 'A1 role closure for the rest of the loop state: an any-thread entry (runInLoop/run/isInLoopThread/isRunning) touches no other field that the '
+             'loop thread writes, except under lock_; run() may hand over to the loop-thread-only runNext() only behind the role test it evaluates under lock_', floor=3)
+    # 1. the role switch inside run()
+    n = 0
+    for f in prog.fn(CL + '::run'):
+        calls = [st for st in f.calls() if st.get('fn') == 'runNext' and st.get('cls') == CL]
+        tests = [st for st in f.calls() if st.get('fn') in ('isInLoopThreadLockless', 'isInLoopThread')]
+        res = eng.analyze(f, frozenset())
+        for c in calls:
+            n += 1
+            cp = q.pt(f, c)
+            locked = [t for t in tests if t['fn'] == 'isInLoopThread' or LOCK in (res.get(q.pt(f, t)) or ())]
+            dep = False
+            for cond, k, b in f.cfg.controlling_branches(cp):
+                if any(t['i'] in set(f.walk(cond)) for t in locked):
+                    dep = True
+                defs = None
+                tst = q.simple_test(f, cond)
+                if tst is not None:
+                    from tbxlint import rd
+                    for d in rd.local_defs(f, tst[0]):
+                        if d['point'] is not None and any(any(t['i'] in set(f.walk(c2)) for t in locked) for c2, k2, b2 in f.cfg.controlling_branches(d['point'])):
+                            dep = True
+            ctx.ob('C01.R8', '%s|runNext-behind-role-test@%s' % (f.name, f.loc(c['i']).split(':')[-1]), bool(locked) and dep,
+                   'runNext() is reached only through the role test (isRunning/isInLoopThread evaluated under lock_)' if locked and dep else
+                   'run() can reach the loop-thread-only runNext() without the role test evaluated under lock_: a caller on another thread pushes into the unlocked queue '
+                   '(data race, lost or reordered tasks, no wake-up)', where=f.loc(c['i']))
+    if n == 0:
+        raise AnalysisBroken('CommonLoop::run: no hand-over to runNext found')
+    # 2. every other loop-written field: not touched by the any-thread entries themselves (runNext is behind the role switch)
+    any_funcs = {}
+    work = [(f, frozenset()) for f in anyf]
+    while work:
+        f, entry = work.pop()
+        if (f.key, entry) in any_funcs:
+            continue
+        any_funcs[(f.key, entry)] = f
+        res = eng.analyze(f, entry)
+        for pt, st in f.cfg.stmt_points():
+            if st['k'] in q.CALL_KINDS and res.get(pt) is not None:
+                g = eng.resolve_callee(st)
+                if g is not None and not (g.short == 'runNext' and g.cls == CL):
+                    work.append((g, frozenset(res[pt])))
+    keep = set(k for k in any_funcs)
+    ctxs2 = [(f, e, r) for f, e, r in ctxs if r != 'any' or (f.key, e) in keep]
+    fields = locks.class_fields(prog, CL) - {CL + '::' + x for x in XFIELDS}
+    # only fields that the loop role writes after construction matter
+    accs = locks.collect_accesses(prog, eng, ctxs2, fields)
+    written = {a['field'] for a in accs if a['rw'] == 'w' and a['role'] == 'loop'}
+    STATS = ('the statistics / water-line API (getStat, resetStat, water_line) is outside the histories the property quantifies over (submissions against loop '
+             'start, iteration, exit, re-run, destruction); the submitting side holds lock_')
+    locks.race_rule(ctx, 'C01.R8', prog, eng, [c for c in ctxs2], written, multi_roles=('any',), not_concurrent=[('dtor', 'any'), ('dtor', 'loop')],
+                    exceptions={(CL + '::getStat', 'run_in_loop_peak_num_'): STATS, (CL + '::resetStat', 'run_in_loop_peak_num_'): STATS,
+                                (CL + '::water_line', 'water_line_'): STATS})
+    ctx.ob('C01.R8', CL + '|fields', True, '%d loop-written fields outside the cross-thread set checked against the any-thread entries' % len(written))
+
+
+def r10(ctx, prog, eng):
+    ctx.rule('C01.R10', 'A5 wake-up token vs channel: has_commit_run_req_ means "a wake-up is pending in run_event_fd_"; when the channel is torn down and re-created '
+             '(loop stop / next runLoop) the token is reset under lock_ — after the teardown, or before the start-time commit — so that the re-created eventfd is written again', floor=1)
+    after = prog.fn1(CL + '::runThisAfterLoop')
+    before = prog.fn1(CL + '::runThisBeforeLoop')
+
+    def resets(f):
+        return [a for a, rhs in q.assigns(f, 'has_commit_run_req_') if f.s(f.strip_casts(rhs)) is not None and f.s(f.strip_casts(rhs)).get('v') is False]
+    closes = [st for st in after.stmts if st and st['k'] == 'CallExpr' and st.get('callee') == 'close' and any((after.field_of(a) or '').endswith('run_event_fd_') for a in st.get('args', ()))]
+    closes += [a for a, rhs in q.assigns(after, 'run_event_fd_')]
+    if not closes:
+        raise AnalysisBroken('runThisAfterLoop: teardown of run_event_fd_ not found')
+    res_a = eng.analyze(after, frozenset())
+    ok_after = False
+    for r in resets(after):
+        rp = q.pt(after, r)
+        if LOCK in (res_a.get(rp) or ()) and all(not after.cfg.exists_path(q.pt(after, c), 'exit', avoid=[rp]) or after.cfg.dominates(rp, q.pt(after, c)) for c in closes):
+            ok_after = True
+    res_b = eng.analyze(before, frozenset())
+    commits = q.calls(before, callee=CL + '::commitRunRequest')
+    ok_before = False
+    for r in resets(before):
+        rp = q.pt(before, r)
+        if LOCK in (res_b.get(rp) or ()) and commits and all(before.cfg.dominates(rp, q.pt(before, c)) for c in commits):
+            ok_before = True
+    ctx.ob('C01.R10', CL + '|token-reset-with-channel', ok_after or ok_before,
+           'the token is reset %s' % ('where the channel is torn down (runThisAfterLoop, under lock_)' if ok_after else 'before the start-time commit of the next run (runThisBeforeLoop, under lock_)')
+           if ok_after or ok_before else
+           'has_commit_run_req_ survives the teardown of the eventfd: a runInLoop() committed after the last handleRunInLoopFunc() of a run leaves it true, and in the next '
+           'runLoop() every runInLoop() — and the start-time commit — skips the eventfd write: the loop is never woken for cross-thread tasks again',
+           where=after.loc(closes[0]['i']))
+
+
+def r9(ctx, prog):
+    ctx.rule('C01.R9', 'A4 (must-fact): the batch being executed is always finished: tmp_func_queue_ is empty at every exit of handleNextFunc / '
+             'handleRunInLoopFunc (nothing but the loop shutdown code looks into it again, and that does not), assuming it empty at entry', floor=2)
+    def is_tmp(g, st):
+        return 'obj' in st and (g.field_of(st['obj']) or '').endswith('tmp_func_queue_')
+    for name in ('handleNextFunc', 'handleRunInLoopFunc'):
+        f = prog.fn1(CL + '::' + name)
+
+        def gen(b, k, f=f):
+            return b.cond is not None and q.edge_holds(f, b.cond, k, 'tmp_func_queue_.empty()', '!=', '0')
+
+        def kill(pt, st, f=f):
+            if st['k'] in q.CALL_KINDS and st.get('fn') in ('swap', 'push_back', 'emplace_back', 'push_front', 'insert', 'operator=') and \
+                    (is_tmp(f, st) or any((f.field_of(a) or '').endswith('tmp_func_queue_') for a in st.get('args', ()))):
+                return True
+            return False
+        fact = q.must_fact(f, gen, kill, entry=True)
+        bad = []
+        for r in q.returns(f):
+            if not fact.get(q.pt(f, r), False):
+                bad.append(f.loc(r['i']))
+        # the implicit return at the end of a void function: the predecessors of the exit block
+        for b in f.cfg.blocks.values():
+            for k_, s_ in enumerate(b.succ):
+                if s_ != f.cfg.exit:
+                    continue
+                endp = (b.id, len(b.el))
+                v = fact.get(endp)
+                if gen(b, k_):
+                    v = True
+                if v is False:
+                    last = [e for e in b.el if e[0] == 'S']
+                    bad.append(f.loc(last[-1][1]) if last else f.loc(f.body))
+        ctx.ob('C01.R9', '%s|batch-finished' % f.name, not bad, 'every exit is reached with tmp_func_queue_ known empty' if not bad else
+               'the function can return (at %s) while tasks swapped into tmp_func_queue_ are still there: nothing runs them later, they are dropped when the loop is destroyed'
+               % ', '.join(sorted(set(bad))[:3]), where=f.loc(f.body))
+
+
 def run(ctx):
     prog = extract('ALL' if ctx.tier == 'thorough' else SCOPE)
     eng, ctxs, anyf, loopf = setup(prog)
@@ -374,5 +503,8 @@ def run(ctx):
     ctx.guard(r4, ctx, prog, eng)
     ctx.guard(r5, ctx, prog, eng)
     ctx.guard(r6, ctx, prog, eng)
+    ctx.guard(r8, ctx, prog, eng, ctxs, anyf)
+    ctx.guard(r9, ctx, prog)
+    ctx.guard(r10, ctx, prog, eng)
     ctx.guard(r7, ctx, prog, eng, ctxs)
     return prog
